@@ -2,7 +2,8 @@
 
 Deductive part (structure of the emitted text, for all merchant names / patterns / tags): suggest_merchants_rule returns exactly
     [<name>] / match: <suggest_match_expr(pattern)> / category: CATEGORY / subcategory: SUBCATEGORY [/ tags: ...]
-and the string literal built for one word is '"' + escape(word) + '"' with backslash and quote escaped (in that order).
+and the string literal built for one word is a quote, what stands for each of its characters (backslash and quote escaped, printable characters as
+themselves, anything else as a printable escape), and a quote.
 That each emitted word is a substring of the upper-cased description, and that the Python literal decodes back to the word, depends on the
 regular-expression semantics of suggest_pattern (A6) and on Python's string-literal tokenizer: bounded stand-in only.
 """
@@ -43,19 +44,57 @@ def h_rule_text(ctx):
 
 
 def h_literal(ctx):
-    """the nested helper `literal` of suggest_match_expr: quote + escape backslash, then quote"""
+    """the nested helper `literal` of suggest_match_expr, character by character: the literal is a quote, then for every character of the word what stands
+    for it, then a quote - a backslash or a double quote with a backslash in front, any other printable character as itself, and a character that is
+    not printable (a NUL byte or another control character, which cannot stand in a rules file) as an escape made of printable ASCII.  That the Python
+    tokenizer reads this text back as the word is outside the contract (bounded stand-in)."""
+    from pyvc import extract
+    from pyvc.ghost import Ghost
+    from pyvc.interp import LoopSpec, Frame
     sp = Spec()
     I = Interp(ctx, sp)
     fi = find_function(D + 'suggest_match_expr')
     lit = [n for n in ast.walk(fi.node) if isinstance(n, ast.FunctionDef) and n.name == 'literal']
     if not lit:
         raise Unsupported('suggest_match_expr.literal not found')
-    from pyvc import extract
     lfi = extract.FunctionInfo(fi.qualname + '.<locals>.literal', fi.mod, lit[0])
+    SeqStr = z3.SeqSort(StrS)
     w = ctx.fresh('word', StrS)
+    chars = UF('str.chars', StrS, SeqStr)(w)
+    printable = UF('str.isprintable', StrS, BoolS)
+    uesc = UF('unicode_escape', StrS, StrS)
+    Join = lambda pieces: UF('str.join', StrS, SeqStr, StrS)(sv(''), pieces)       # the engine's reading of ''.join(list)
+
+    def esc(c):
+        return z3.If(z3.Or(c == sv('\\'), c == sv('"')), z3.Concat(sv('\\'), c), z3.If(printable(c), c, uesc(c)))
+    Written = Ghost('LiteralChars', [SeqStr], SeqStr, base=lambda cs: z3.Empty(SeqStr), step=lambda cs, k, acc: z3.Concat(acc, z3.Unit(esc(cs[k]))))
+    sp.models['method:str.isprintable'] = Func(lambda I_, a, k, n: printable(to_z3(a[0], StrS)))
+    sp.models['method:str.encode'] = Func(lambda I_, a, k, n: Obj(UF('encoded', StrS, ObjS)(to_z3(a[0], StrS)), 'bytes:' + str(a[1] if len(a) > 1 else 'utf-8')))
+
+    def m_decode(I_, a, k, n):
+        o = a[0]
+        if not (isinstance(o, Obj) and o.cls == 'bytes:unicode_escape' and a[1:] == ['ascii']):
+            raise Unsupported('decode of something other than unicode_escape bytes as ascii')
+        return uesc(o.expr.arg(0))
+    sp.models['method:Obj:*.decode'] = Func(m_decode)
+
+    fr = Frame(lfi, {})
+    loops = [n for n in ast.walk(lfi.node) if isinstance(n, ast.For)]
+    if len(loops) != 1:
+        raise Unsupported('literal: expected one loop over the characters of the word, found %d' % len(loops))
+    acc = sorted({c.func.value.id for c in ast.walk(loops[0]) if isinstance(c, ast.Call) and isinstance(c.func, ast.Attribute) and c.func.attr == 'append'
+                  and isinstance(c.func.value, ast.Name)})
+    if len(acc) != 1:
+        raise Unsupported('literal: the loop collects into %s' % acc)
+    sp.loops[(lfi.qualname, fr.loop_ordinals[id(loops[0])])] = LoopSpec(
+        lambda I_, env, k, it: {'written_so_far_is_what_stands_for_the_characters_so_far': env[acc[0]].cols[0] == Written(chars, k) if isinstance(env[acc[0]], SymSeq)
+                                else z3.BoolVal(env[acc[0]] == [] and z3.is_int_value(k) and k.as_long() == 0)},
+        {acc[0]: lambda c: SymSeq([c.fresh('pieces', SeqStr)])}, kind='property', unfold=lambda I_, env, k, it: Written.unfold(chars, k) + ([z3.Length(chars[k]) == 1] if not z3.is_int_value(k) or k.as_long() >= 0 else []))       # a character is a string of length one
+    for f in Written.unfold(chars, z3.IntVal(-1)):
+        ctx.assume(f)
     r = I.call_function(lfi, [w])
-    esc = replace_all(replace_all(w, sv('\\'), sv('\\\\')), sv('"'), sv('\\"'))
-    ctx.check('C19.word_literal_is_quoted_and_escaped', to_z3(r, StrS) == z3.Concat(sv('"'), esc, sv('"')), 'property')
+    ctx.check('C19.word_literal_is_a_quote_what_stands_for_each_character_and_a_quote',
+              to_z3(r, StrS) == z3.Concat(sv('"'), Join(Written(chars, z3.Length(chars))), sv('"')), 'property')
     ctx.cover('literal.returns')
 
 
